@@ -7,7 +7,7 @@ import re as _re
 from typing import List, Optional
 
 from .. import rx
-from ..core import Ctx, assigned_names, dotted, names_in, norm, stmts_local, walk_local
+from ..core import Ctx, assigned_names, dotted, effective_body, names_in, norm, stmts_local, walk_local
 from ..paths import enumerate_paths
 
 
@@ -163,7 +163,7 @@ def rule_substitutions(ctx: Ctx):
     for s in m.tree.body:
         if not isinstance(s, ast.FunctionDef) or len(s.args.args) != 1:
             continue
-        body = [b for b in s.body if not (isinstance(b, ast.Expr) and isinstance(b.value, ast.Constant))]
+        body = effective_body(s)
         if not (len(body) == 1 and isinstance(body[0], ast.Return) and isinstance(body[0].value, ast.Call) and dotted(body[0].value.func) == "re.sub"):
             continue
         c = body[0].value
